@@ -97,7 +97,7 @@ func TestVerif_C04(t *testing.T) {
 				rep.Violation("invariant/len", fmt.Sprintf("Len()=%d but the match-everything query lists %d events", l, len(after)), histWitness(capacity, hs))
 				return false
 			}
-			if i < 3 && len(hs) == 12 {
+			if len(hs) == 8 && rep.WantSample() {
 				rep.Sample(histWitness(capacity, hs))
 			}
 			return true
@@ -237,7 +237,7 @@ func TestVerif_C05(t *testing.T) {
 					return false
 				}
 			}
-			if i < 2 && len(hs) == 10 {
+			if len(hs) == 8 && rep.WantSample() {
 				rep.Sample(histWitness(capacity, hs))
 			}
 			return true
@@ -340,7 +340,7 @@ func TestVerif_C03(t *testing.T) {
 						}
 					}
 				}
-				if i == 0 && q == 0 && len(hs) < 4 {
+				if q == 1 && len(R) >= 2 && rep.WantSample() {
 					rep.Sample(map[string]any{"retained": shortIDs(R), "filters": vk.JSON(fs), "answer": shortIDs(ans)})
 				}
 			}
